@@ -566,13 +566,13 @@ func caseThr(h *H, r *hlib.Rng, variant string) {
 func panicSig(fn string, p string, x hdrT) string {
 	if containsDivZero(p) {
 		if x.diff.Sign() == 0 {
-			return "workshare-div-by-zero:" + fn + ":difficulty=0"
+			return "workshare-div-by-zero:difficulty=0:" + fn
 		}
 		var sd *big.Int
 		wh, _ := x.build()
 		guard(func() { sd = core.CalculateKawpowShareDiff(wh) })
 		if x.ptn.Uint64() >= fork && sd != nil && sd.Sign() == 0 && x.diff.Cmp(big.NewInt(int64(params.ExpectedWorksharesPerBlock))) <= 0 {
-			return "workshare-div-by-zero:" + fn + ":kawpow-share-diff=0"
+			return "workshare-div-by-zero:kawpow-share-diff=0:" + fn
 		}
 	}
 	return "panic:" + fn
